@@ -21,6 +21,8 @@ REQUIRED_THEOREMS = [
     'OpusProps.C01.celt_prefilter_fold_indices_in_bounds', 'OpusProps.C01.celt_plc_indices_in_bounds',
     'OpusProps.C01.msDecodeFull_duration', 'OpusProps.EndToEndMs.ms_encode_decode_duration',
     'OpusProps.C01.celt_callee_contracts', 'OpusProps.C01.celt_callee_contracts_at_decoder_args',
+    'OpusProps.C01.decodeApi_duration', 'OpusProps.C01.decodeNative_writes_tight',
+    'OpusProps.EndToEndMs.ms_encode_decode_duration_contract',
 ]
 RULE = ('random call histories on one decoder state (decode of real-encoder packets of all modes/bandwidths/durations, '
         'bit-flipped / truncated / extended / random packets, synthetic framing of every code incl. self-delimited, NULL and '
@@ -67,7 +69,12 @@ TRUSTED = ['oracle contracts for silk_Decode / celt_decode_with_ec_dred / ec_dec
            'xcorr_kernel_c, celt_inner_prod_c), _celt_lpc, pitch_downsample (+ celt_fir5) — hand transcription of celt/celt_lpc.c, '
            'celt/pitch.c, celt/pitch.h (float / non-SMALL_FOOTPRINT paths); the compiled routines run under the sanitizer on blocks of '
            'exactly the contract size (tie lines `contract`)']
-UNPROVED = ['CELT interior index bridge: the call lists and inline-loop extents of celt_decoder.c are proved in bounds under the '
+UNPROVED = ['decodeNative_writes is tight (extent inside [pcm.off, pcm.off + frame_size*channels)) only for pcm.off = 0 and pcm.cap = '
+            'frame_size*channels (decodeNative_writes_tight: the shape of every call the entry points make); for other pointers only '
+            '0 <= off and off + n <= pcm.cap is proved',
+            'EndToEndMs: the equation encodeNative = .ok out is not instantiated inside Lean (C10\'s executable encoder model does not '
+            'reduce in the kernel; #eval and the msenc suite only), and SkelOk is not instantiated for all curr_max',
+            'CELT interior index bridge: the call lists and inline-loop extents of celt_decoder.c are proved in bounds under the '
             'callee contracts (Call.accs); those of comb_filter, celt_fir_c, celt_iir, _celt_autocorr, _celt_lpc and pitch_downsample are '
             'discharged from index models of the C reference code (celt_callee_contracts; SIMD variants: sanitizer probes only), those of '
             'clt_mdct_backward (FFT interior), denormalise_bands and pitch_search are transcribed and validated by sanitizer probes on '
@@ -79,7 +86,11 @@ UNPROVED = ['CELT interior index bridge: the call lists and inline-loop extents 
             'decodeNative_depends_on_parse relates two runs whose DSP oracles agree up to the frame-offset shift (OracleShift); '
             'that the real SILK / CELT decoders satisfy this (they read the frame bytes only through data+offset) is an oracle '
             'assumption, not proved here']
-LEVEL_TEXT = ('proof of the control skeleton, partial for the property: for every state satisfying the decoder invariant (hence, by '
+LEVEL_TEXT = ('proof of the control skeleton, partial for the property ("never OPUS_INTERNAL_ERROR" rests on the oracle contract '
+              'OracleOk.celt = "celt_decode_with_ec returns frame_size for legal arguments": refuted by the code before /repo 59715713 '
+              '(budget-overrun exit), true of the code since — its only error returns are the argument checks excluded by '
+              'decodeNative_oracle_args; symbol-level support C03 celtFrame_total / celtFrame_preserves_J; monitored on every explored '
+              'call): for every state satisfying the decoder invariant (hence, by '
               'induction, after every history of decode / loss / FEC / reset / gain calls), every packet / NULL, len, frame_size, '
               'decode_fec, self_delimited and every oracle behaviour within the contracts, opus_decode_native returns exactly '
               'nativeRet(args) — a pure function of the arguments that is BAD_ARG | BUFFER_TOO_SMALL | INVALID_PACKET or 0 < n <= '
